@@ -58,7 +58,10 @@ type MEnv struct {
 	UnwrapKeeps bool   // unwrapped label stays in the series label set
 	CmpFalse    string // "zero" | "drop": what a false comparison without bool yields (calibrated)
 	CmpFalseBool string // same with the bool modifier
-	cache       map[string][]MSample
+	// Ambiguous counts top-k selections whose cut falls inside a tie (the statement does not say which
+	// of the equal members is returned); such cases are discarded by the caller.
+	Ambiguous int
+	cache     map[string][]MSample
 }
 
 // ---- range aggregation leaf
@@ -456,6 +459,9 @@ func (a *VecAgg) Eval(env *MEnv, T int64) Vec {
 				return ms[i].V < ms[j].V
 			})
 			if len(ms) > a.K {
+				if ms[a.K-1].V == ms[a.K].V {
+					env.Ambiguous++
+				}
 				ms = ms[:a.K]
 			}
 			for _, m := range ms {
